@@ -283,7 +283,8 @@ class C19(Check):
     level = "exploration"
     title = "Static analysis reports everything a render can touch"
     rule = (
-        "Every program of the C19 menu (33 leaves incl. 15 include/render/extends sites and macro calls, 14 blocks: "
+        f"Every program of the C19 menu ({len(G.LEAVES)} leaves incl. include/render/extends sites -- with, for, as, keyword arguments, "
+        "and the implicit partial-name binding -- and macro calls, 14 blocks: "
         "if/elsif/unless/case/for/for-else/tablerow/capture/with/macro/block/ifchanged) up to the size bound, nesting "
         "depth <= 2, x 4 data sets (D1-D3 drive every branch and loop body, D4 = all missing) x {sync, +async for D1}; "
         "analysed once, rendered under the monitor. Non-trivial = the render evaluated at least one path and rendered at "
